@@ -35,6 +35,19 @@ func importBody(r *Rng, pool *PathPool, nrefs int) []*Stmt {
 		body = append(body, st(kw("Var"), id("_"), op("="), &Grp{Api: "Map", Args: []Arg{st(kw("String"))}}, kw("Any"), &Grp{Api: "Values", Args: []Arg{
 			&Dict{Pairs: [][2]Arg{{st(mkLit("k")), st(kw("Null"))}, {st(kw("Null")), q}}}}}))
 	}
+	if r.Chance(30) {
+		// a reference as the KEY of a pair whose value is null: the pair is omitted
+		k := r.Intn(len(pool.Paths))
+		q := st(Qual{Path: pool.Paths[k], Name: qName(k)})
+		body = append(body, st(kw("Var"), id("_"), op("="), &Grp{Api: "Map", Args: []Arg{st(kw("Any"))}}, kw("Any"), &Grp{Api: "Values", Args: []Arg{
+			&Dict{Pairs: [][2]Arg{{q, st(kw("Null"))}}}}}))
+	}
+	if r.Chance(15) {
+		// a reference inside an all-null type-parameter list and inside a null group
+		k := r.Intn(len(pool.Paths))
+		body = append(body, st(kw("Var"), id("_"), id("T"), &Grp{Api: "Types", Args: []Arg{st(kw("Null")), Nil{}}}))
+		_ = k
+	}
 	return body
 }
 
@@ -223,7 +236,7 @@ func importFindings(cx *CheckCtx, runs []*CaseRun, prop string) []Finding {
 				if pr.Prop == "*" && !importsAtFault(src) {
 					continue
 				}
-				if pr.Prop == prop || (pr.Prop == "*" && allSane(cr.Case)) {
+				if pr.Prop == prop || (prop == "C18" && pr.Prop == "C03") || (pr.Prop == "*" && allSane(cr.Case)) {
 					shape := pr.Kind
 					if pr.Kind == "duplicate-name" && t.Prefix != "" {
 						shape = "duplicate-name-with-prefix"
@@ -585,6 +598,21 @@ func registerImportChecks() {
 			}
 		}
 		cx.Extra["std_colliding_pairs"] = npairs
+		// user aliases on standard packages: the last path element, the declared name, something else
+		for _, p := range pk {
+			base := filepath.Base(p)
+			for v, a := range []string{base, stdDeclName(p), "x" + base} {
+				if !isGoIdent(a) {
+					continue
+				}
+				c := &Case{ID: fmt.Sprintf("C18-alias-%s-%d", p, v)}
+				c.Ops = append(c.Ops, Op{Kind: OpFile, F: 0, Str: []string{"new", "", "p"}})
+				c.Ops = append(c.Ops, Op{Kind: OpHintAlias, F: 0, Str: []string{p, a}})
+				c.Ops = append(c.Ops, Op{Kind: OpFAdd, F: 0, Args: []Arg{st(kw("Var"), id("_"), op("="), Qual{Path: p, Name: qName(0)})}})
+				c.Ops = append(c.Ops, Op{Kind: OpRender, F: 0})
+				cs = append(cs, c)
+			}
+		}
 		// random triples with user paths guessing the same name
 		for i := 0; i < cx.N(300, 5000); i++ {
 			r := cx.R.Fork()
